@@ -186,6 +186,92 @@ MSYM = Harness(
 )
 
 
+# ------------------------------------------------ M-history: several calls, shared sections
+import copy as _copy  # noqa: E402
+
+HIST_KINDS = [0, 1, 4, 5, 6, 7]
+SHARING = ["no sharing", "overrides['a'] and overrides['a.b'] are ONE dict object (a YAML alias)", "original['a'] and original['a.b'] are ONE dict object",
+           "both"]
+
+
+def hist_params(tier):
+    n = len(HIST_KINDS) - 1
+    return [P("ka", 0, n), P("kb", 0, n), P("la", 0, n), P("lb", 0, n), P("share", 0, 3), P("edit", 0, 2)]
+
+
+def _wreck(res, o, v):
+    """Consume a result the way callers do (pop everything), descending only into sections that were MERGED (those must be new objects)."""
+    for k in list(res):
+        if isinstance(res[k], dict) and isinstance((o or {}).get(k), dict) and isinstance((v or {}).get(k), dict):
+            if res[k] is not o[k] and res[k] is not v[k]:
+                _wreck(res[k], o[k], v[k])
+    res.clear()
+
+
+def hist_fn(a, tier):
+    n = len(HIST_KINDS)
+    ko = [HIST_KINDS[pick(a["ka"], n)], HIST_KINDS[pick(a["kb"], n)]]
+    kv = [HIST_KINDS[pick(a["la"], n)], HIST_KINDS[pick(a["lb"], n)]]
+    share, edit = pick(a["share"], 4), pick(a["edit"], 3)
+    original, overrides = build_arg(1, ko, [11, 12]), build_arg(1, kv, [13, 14])
+    if share in (1, 3) and isinstance(overrides.get("a"), dict) and kv[1] != 0:
+        overrides["a.b"] = overrides["a"]
+    if share in (2, 3) and isinstance(original.get("a"), dict) and ko[1] != 0:
+        original["a.b"] = original["a"]
+    summary = {"original": {k: KINDS[x] for k, x in zip(KEYS, ko)}, "overrides": {k: KINDS[x] for k, x in zip(KEYS, kv)}, "sharing": SHARING[share],
+               "between_the_calls": ["the first result is consumed (emptied)", "a leaf of overrides is changed in place", "a leaf of original is changed in place"][edit]}
+
+    def one(label):
+        o_copy, v_copy = _copy.deepcopy(original), _copy.deepcopy(overrides)
+        try:
+            result = merge_config(original, overrides)
+        except Exception as e:
+            return None, FAIL(f"history:raised:{type(e).__name__}:{label}", repr(e), summary)
+        if result is original or result is overrides:
+            return None, FAIL(f"history:result-is-an-argument:{label}", "", summary)
+        if not same(original, o_copy) or not same(overrides, v_copy):
+            return None, FAIL(f"history:argument-modified:{label}:share={share}", "", summary)
+        if not same(result, ref_merge(o_copy, v_copy)):
+            return None, FAIL(f"history:wrong-merge:{label}:share={share}:edit={edit}", f"got {result!r} expected {ref_merge(o_copy, v_copy)!r}", summary)
+        return result, None
+
+    r1, bad = one("first call")
+    if bad:
+        return bad
+    if edit == 0:
+        _wreck(r1, original, overrides)
+    else:
+        target = overrides if edit == 1 else original
+        for d in nested_dicts(target, []):
+            for k in list(d):
+                if isinstance(d[k], int) and not isinstance(d[k], bool):
+                    d[k] = d[k] + 1000
+    r2, bad = one("second call")
+    if bad:
+        return bad
+    _wreck(r2, original, overrides)
+    r3, bad = one("third call")
+    if bad:
+        return bad
+    return OK(summary, True)
+
+
+MHIST = Harness(
+    prop="C17",
+    name="M-history",
+    fn=guard(hist_fn),
+    params=hist_params,
+    mode="cs",
+    cube=lambda tier: 2,
+    title="three calls on the same argument objects with the caller consuming results / editing its arguments in between; sections shared by identity",
+    bound_text=lambda tier: "both arguments dicts over {'a','a.b'}, per key one of " + ", ".join(KINDS[k] for k in HIST_KINDS) + "; sharing in {" + "; ".join(SHARING)
+    + "}; between call 1 and 2: result emptied / overrides' leaves changed in place / original's leaves changed in place; result 2 emptied before call 3",
+    oracle="every call's result == reference merge of the arguments AS THEY ARE at that call; arguments unchanged by every call; a section referenced twice is merged at both places",
+    outside="as M",
+    stubs=("none",),
+)
+
+
 # ------------------------------------------------ bug hunting with CrossHair's own containers
 def hunt_params(tier):
     return [P("k1", type="str", maxlen=2), P("k2", type="str", maxlen=2), P("k3", type="str", maxlen=2),
@@ -230,4 +316,4 @@ HUNT = Harness(
     cond_timeout=lambda tier: 40 if tier == "quick" else 300,
 )
 
-HARNESSES = [M, MSYM, HUNT]
+HARNESSES = [M, MSYM, MHIST, HUNT]
